@@ -66,7 +66,9 @@ func (s *Server) Wait() {
 	<-s.ch
 }
 func (s *Server) listen() {
-	if atomic.SwapUint32(&s.run, 1) != 0 {
+	if !atomic.CompareAndSwapUint32(&s.run, 0, 1) {
+		// Only claim the run word when nothing ran before: a Server that was
+		// already shut down (run == 2) must stay that way.
 		return
 	}
 	if bugtrack.Enabled {
